@@ -342,6 +342,10 @@ class Interp(object):
     def st_Global(self, s, fr):
         pass
 
+    def st_FunctionDef(self, s, fr):
+        # nested function: a closure over the defining frame
+        fr.locals[s.name] = FuncVal(s, fr.mod, fr.cls, None, fr)
+
     def st_With(self, s, fr):
         # `with lock:` and file/gzip contexts: the context managers used in the verified functions have no
         # effect on the modelled state on entry/exit (locks) or are handled by their external model
